@@ -205,31 +205,17 @@ fn define_module(
 
     let ctx = method_context::MethodContext::new(dictionary.clone(), user_pref.clone());
     let mut module = RpcModule::new(ctx);
-    let (session_sender, session_receiver) = std::sync::mpsc::channel();
     let (conversion_notifier, conversion_reciever) = std::sync::mpsc::channel();
     let (entry_sender, entry_reciever) = std::sync::mpsc::channel();
     let store = Arc::new(Mutex::new(SessionStore::new()));
 
-    method::make_get_candidates_method(&mut module, session_sender.clone())?;
+    method::make_get_candidates_method(&mut module, store.clone())?;
     method::make_get_tankan_candidates_method(&mut module)?;
     method::make_update_frequency_method(&mut module, store.clone(), entry_sender.clone())?;
     method::make_register_word(&mut module, entry_sender.clone())?;
-    method::make_get_proper_candidates_method(&mut module, session_sender.clone())?;
+    method::make_get_proper_candidates_method(&mut module, store.clone())?;
     method::make_get_alphabetic_candidate_method(&mut module)?;
 
-    let store_in_thread = store.clone();
-    // ここでのthreadは、後始末する必要がない
-    tokio::task::spawn_blocking(move || {
-        loop {
-            if let Ok(session) = session_receiver.recv() {
-                let (id, candidates, context) = session;
-                store_in_thread
-                    .lock()
-                    .unwrap()
-                    .add_session(&id, &candidates, &context);
-            }
-        }
-    });
     spawn_save_user_pref_per_count(user_pref.clone(), conversion_reciever);
     spawn_update_dictionary_with_entry(dictionary.clone(), user_pref.clone(), entry_reciever);
     spawn_periodic_user_pref_save(args.seconds_per_save, conversion_notifier.clone());
